@@ -553,7 +553,10 @@ class Normaliser:
             else:
                 out.append(toks[i])
                 i += 1
-        if count is not None and hits != count:
+        if count == -1:
+            if hits > 1:
+                raise NormError("declared rewrite %r matched %d times, expected at most 1" % (pat, hits))
+        elif count is not None and hits != count:
             raise NormError("declared rewrite %r matched %d times, expected %d" % (pat, hits, count))
         self.note("R-declared:" + pat, hits)
         return out
